@@ -5,10 +5,11 @@ conflicting rows that the table's `ordered` does not order (neither is construct
 share a non-zero role, no common lock with an exclusive side, no close edge) there is an execution that
 does everything the two rows say and in which the two accesses are not ordered by happens-before.
 
-The execution: the creator (goroutine 1) publishes the object, goroutine 2 obtains it, goroutine 1 takes
-the locks of row `a`, goroutine 2 the locks of row `b` (possible: every common lock is shared on both
-sides), then both access.  Side conditions: the rows name each lock once, and neither relies on having
-observed a channel closed (`acqBefore = []`; the rows' `relAfter` lists are unrestricted).
+The execution: the creator (goroutine 1) publishes the object, goroutine 2 obtains it, a third goroutine
+closes every channel one of the rows wants to have observed closed, goroutines 1 and 2 observe theirs,
+goroutine 1 takes the locks of row `a`, goroutine 2 the locks of row `b` (possible: every common lock is
+shared on both sides), then both access.  Side conditions: a row names each lock once, and no row lists
+one channel both as closed after it and as observed closed before it (such a row has no execution).
 -/
 namespace ScVerif.C11
 
@@ -75,17 +76,122 @@ theorem xrun_acqEvs {cr t : Nat} {hs : List (Nat × LMode)} : ∀ {s : XState},
       · exact hok q (List.mem_cons_of_mem _ hq) e he hl)
     simpa [acqEvs, pushAll] using this
 
-def racyPre (a b : Access) : List XEv := [XEv.pub 1, XEv.get 2] ++ acqEvs 1 a.held ++ acqEvs 2 b.held
+/-- a list without repetitions with the same elements -/
+def dedup : List Nat → List Nat
+  | [] => []
+  | c :: cs => if (dedup cs).contains c then dedup cs else c :: dedup cs
+
+theorem mem_dedup {c : Nat} : ∀ {l : List Nat}, c ∈ dedup l ↔ c ∈ l := by
+  intro l
+  induction l with
+  | nil => simp [dedup]
+  | cons d ds ih =>
+    simp only [dedup]
+    split
+    · rename_i h
+      have hd : d ∈ dedup ds := by simpa using h
+      constructor
+      · intro hc; exact List.mem_cons_of_mem _ (ih.mp hc)
+      · intro hc
+        rcases List.mem_cons.mp hc with hc | hc
+        · rw [hc]; exact hd
+        · exact ih.mpr hc
+    · simp only [List.mem_cons, ih]
+
+theorem nodup_dedup : ∀ (l : List Nat), (dedup l).Nodup := by
+  intro l
+  induction l with
+  | nil => simp [dedup]
+  | cons d ds ih =>
+    simp only [dedup]
+    split
+    · exact ih
+    · rename_i h
+      exact List.nodup_cons.mpr ⟨by simpa using h, ih⟩
+
+def closeEvs (cs : List Nat) : List XEv := cs.map fun c => XEv.close 3 c
+def obsEvs (t : Nat) (cs : List Nat) : List XEv := cs.map fun c => XEv.obs t c
+
+def pushClosed : List Nat → List Nat → List Nat
+  | [], st => st
+  | c :: cs, st => pushClosed cs (c :: st)
+
+theorem mem_pushClosed {c : Nat} : ∀ {cs st : List Nat}, c ∈ pushClosed cs st ↔ c ∈ cs ∨ c ∈ st := by
+  intro cs
+  induction cs with
+  | nil => intro st; simp [pushClosed]
+  | cons d ds ih =>
+    intro st
+    simp only [pushClosed, ih, List.mem_cons]
+    constructor
+    · rintro (h | h | h)
+      · exact Or.inl (Or.inr h)
+      · exact Or.inl (Or.inl h)
+      · exact Or.inr h
+    · rintro ((h | h) | h)
+      · exact Or.inr (Or.inl h)
+      · exact Or.inl h
+      · exact Or.inr (Or.inr h)
+
+/-- distinct channels that are still open can be closed one after the other -/
+theorem xrun_closeEvs {cr : Nat} {cs : List Nat} : ∀ {s : XState}, cs.Nodup → (∀ c ∈ cs, c ∉ s.closed) →
+    xrun cr s (closeEvs cs) = some { s with closed := pushClosed cs s.closed } := by
+  induction cs with
+  | nil => intro s _ _; simp [closeEvs, xrun, pushClosed]
+  | cons c cs ih =>
+    intro s hnd hopen
+    have hnd' := List.nodup_cons.mp hnd
+    have hc : s.closed.contains c = false := by
+      simpa using hopen c List.mem_cons_self
+    simp only [closeEvs, List.map_cons, xrun, xstep, hc, Bool.false_eq_true, if_false, Option.bind_some]
+    have := ih (s := { s with closed := c :: s.closed }) hnd'.2 (by
+      intro d hd hm
+      rcases List.mem_cons.mp hm with hm | hm
+      · exact hnd'.1 (hm ▸ hd)
+      · exact hopen d (List.mem_cons_of_mem _ hd) hm)
+    simpa [closeEvs, pushClosed] using this
+
+/-- closed channels can be observed closed, and nothing changes -/
+theorem xrun_obsEvs {cr t : Nat} {cs : List Nat} {s : XState} (h : ∀ c ∈ cs, c ∈ s.closed) :
+    xrun cr s (obsEvs t cs) = some s := by
+  induction cs with
+  | nil => simp [obsEvs, xrun]
+  | cons c cs ih =>
+    have hc : s.closed.contains c = true := by simpa using h c List.mem_cons_self
+    simp only [obsEvs, List.map_cons, xrun, xstep, hc, if_true, Option.bind_some]
+    exact ih fun d hd => h d (List.mem_cons_of_mem _ hd)
+
+/-- the channels somebody has to close first -/
+def racyChans (a b : Access) : List Nat := dedup (a.acqBefore ++ b.acqBefore)
+
+def racyPre (a b : Access) : List XEv :=
+  [XEv.pub 1, XEv.get 2] ++ closeEvs (racyChans a b) ++ obsEvs 1 a.acqBefore ++ obsEvs 2 b.acqBefore
+    ++ acqEvs 1 a.held ++ acqEvs 2 b.held
 
 /-- the witness execution for two rows -/
 def racyExec (a b : Access) : List XEv := racyPre a b ++ [XEv.acc 1 a, XEv.acc 2 b]
 
-def racyState (a b : Access) : XState := ⟨pushAll 2 b.held (pushAll 1 a.held []), [], true, [2]⟩
+def racyState (a b : Access) : XState :=
+  ⟨pushAll 2 b.held (pushAll 1 a.held []), pushClosed (racyChans a b) [], true, [2]⟩
 
 theorem racyPre_plain {a b : Access} {e : XEv} (h : e ∈ racyPre a b) :
-    (∀ t x, e ≠ XEv.acc t x) ∧ (∀ t c, e ≠ XEv.close t c) := by
-  simp only [racyPre, acqEvs, List.cons_append, List.nil_append, List.mem_cons, List.mem_append, List.mem_map] at h
-  rcases h with h | h | ⟨p, _, h⟩ | ⟨p, _, h⟩ <;> subst h <;> exact ⟨fun _ _ h => XEv.noConfusion h, fun _ _ h => XEv.noConfusion h⟩
+    (∀ t x, e ≠ XEv.acc t x) ∧ (∀ t c, e = XEv.close t c → c ∈ a.acqBefore ∨ c ∈ b.acqBefore) := by
+  simp only [racyPre, acqEvs, closeEvs, obsEvs, List.cons_append, List.nil_append, List.mem_cons, List.mem_append,
+    List.mem_map, List.append_assoc] at h
+  rcases h with h | h | ⟨c, hc, h⟩ | ⟨c, _, h⟩ | ⟨c, _, h⟩ | ⟨p, _, h⟩ | ⟨p, _, h⟩ <;> subst h <;>
+    first
+    | exact ⟨fun _ _ h => XEv.noConfusion h, fun _ _ h => XEv.noConfusion h⟩
+    | (refine ⟨fun _ _ h => XEv.noConfusion h, fun t d h => ?_⟩
+       cases h
+       exact List.mem_append.mp (mem_dedup.mp hc))
+
+theorem racyPre_obs {a b : Access} :
+    (∀ c ∈ a.acqBefore, XEv.obs 1 c ∈ racyPre a b) ∧ (∀ c ∈ b.acqBefore, XEv.obs 2 c ∈ racyPre a b) := by
+  constructor <;> intro c hc <;>
+    simp only [racyPre, acqEvs, closeEvs, obsEvs, List.cons_append, List.nil_append, List.mem_cons, List.mem_append,
+      List.mem_map, List.append_assoc]
+  · exact Or.inr (Or.inr (Or.inr (Or.inl ⟨c, hc, rfl⟩)))
+  · exact Or.inr (Or.inr (Or.inr (Or.inr (Or.inl ⟨c, hc, rfl⟩))))
 
 theorem not_commonLock_shared {a b : Access} (h : ¬ commonLock a b) {l : Nat} {m₁ m₂ : LMode}
     (h₁ : (l, m₁) ∈ a.held) (h₂ : (l, m₂) ∈ b.held) : m₁ = LMode.shared ∧ m₂ = LMode.shared := by
@@ -96,18 +202,28 @@ theorem not_commonLock_shared {a b : Access} (h : ¬ commonLock a b) {l : Nat} {
 
 theorem racyPre_run {a b : Access} (hcl : ¬ commonLock a b) (hda : (a.held.map Prod.fst).Nodup)
     (hdb : (b.held.map Prod.fst).Nodup) : xrun 1 XState.init (racyPre a b) = some (racyState a b) := by
-  have h₁ : xrun 1 ⟨[], [], true, [2]⟩ (acqEvs 1 a.held) = some ⟨pushAll 1 a.held [], [], true, [2]⟩ :=
-    xrun_acqEvs (s := ⟨[], [], true, [2]⟩) hda (by intro p _ e he; cases he)
-  have h₂ : xrun 1 ⟨pushAll 1 a.held [], [], true, [2]⟩ (acqEvs 2 b.held) = some (racyState a b) :=
-    xrun_acqEvs (s := ⟨pushAll 1 a.held [], [], true, [2]⟩) hdb (by
+  let cl := pushClosed (racyChans a b) []
+  have hmem : ∀ c, c ∈ a.acqBefore ∨ c ∈ b.acqBefore → c ∈ cl := fun c hc =>
+    mem_pushClosed.mpr (Or.inl (mem_dedup.mpr (List.mem_append.mpr hc)))
+  have h₀ : xrun 1 ⟨[], [], true, [2]⟩ (closeEvs (racyChans a b)) = some ⟨[], cl, true, [2]⟩ :=
+    xrun_closeEvs (s := ⟨[], [], true, [2]⟩) (nodup_dedup _) (by intro c _ h; cases h)
+  have ho₁ : xrun 1 ⟨[], cl, true, [2]⟩ (obsEvs 1 a.acqBefore) = some ⟨[], cl, true, [2]⟩ :=
+    xrun_obsEvs (s := ⟨[], cl, true, [2]⟩) fun c hc => hmem c (Or.inl hc)
+  have ho₂ : xrun 1 ⟨[], cl, true, [2]⟩ (obsEvs 2 b.acqBefore) = some ⟨[], cl, true, [2]⟩ :=
+    xrun_obsEvs (s := ⟨[], cl, true, [2]⟩) fun c hc => hmem c (Or.inr hc)
+  have h₁ : xrun 1 ⟨[], cl, true, [2]⟩ (acqEvs 1 a.held) = some ⟨pushAll 1 a.held [], cl, true, [2]⟩ :=
+    xrun_acqEvs (s := ⟨[], cl, true, [2]⟩) hda (by intro p _ e he; cases he)
+  have h₂ : xrun 1 ⟨pushAll 1 a.held [], cl, true, [2]⟩ (acqEvs 2 b.held) = some (racyState a b) :=
+    xrun_acqEvs (s := ⟨pushAll 1 a.held [], cl, true, [2]⟩) hdb (by
       intro p hp e he hl
       rcases pushAll_mem he with he | ⟨ht, hm⟩
       · cases he
       · have := not_commonLock_shared hcl (l := p.1) (m₁ := e.2.2) (m₂ := p.2) (by rw [← hl]; exact hm) hp
         exact ⟨by rw [ht]; decide, this.2, this.1⟩)
-  simp only [racyPre, List.cons_append, List.nil_append, xrun, xstep, XState.init]
+  simp only [racyPre, List.append_assoc, List.cons_append, List.nil_append, xrun, xstep, XState.init]
   simp only [beq_self_eq_true, Bool.not_false, Bool.and_self, if_true, Option.bind_some]
-  rw [xrun_append, h₁, Option.bind_some, h₂]
+  rw [xrun_append, h₀, Option.bind_some, xrun_append, ho₁, Option.bind_some, xrun_append, ho₂, Option.bind_some,
+    xrun_append, h₁, Option.bind_some, h₂]
 
 theorem racyExec_get {a b : Access} {k : Nat} {e : XEv} (h : (racyExec a b)[k]? = some e) :
     (k < (racyPre a b).length ∧ e ∈ racyPre a b) ∨ (k = (racyPre a b).length ∧ e = XEv.acc 1 a)
@@ -131,8 +247,8 @@ theorem racyExec_at_b {a b : Access} : (racyExec a b)[(racyPre a b).length + 1]?
 
 /-- **Unordered ⇒ a racy execution.** -/
 theorem unordered_pair_races {a b : Access} (hno : ¬ ordered a b)
-    (hqa : a.acqBefore = []) (hqb : b.acqBefore = []) (hda : (a.held.map Prod.fst).Nodup)
-    (hdb : (b.held.map Prod.fst).Nodup) :
+    (hqa : ∀ c ∈ a.relAfter, c ∉ a.acqBefore) (hqb : ∀ c ∈ b.relAfter, c ∉ b.acqBefore)
+    (hda : (a.held.map Prod.fst).Nodup) (hdb : (b.held.map Prod.fst).Nodup) :
     ∃ (ρ : Nat → Nat) (sf : XState), xrun 1 XState.init (racyExec a b) = some sf
       ∧ Conforms 1 ρ [a, b] (racyExec a b)
       ∧ (racyExec a b)[(racyPre a b).length]? = some (XEv.acc 1 a)
@@ -143,6 +259,8 @@ theorem unordered_pair_races {a b : Access} (hno : ¬ ordered a b)
   have hpb : b.phase ≠ Phase.init := fun h => hno (Or.inr (Or.inl h))
   have hro : ¬ (a.role ≠ 0 ∧ a.role = b.role) := fun h => hno (Or.inr (Or.inr (Or.inl h)))
   have hcl : ¬ commonLock a b := fun h => hno (Or.inr (Or.inr (Or.inr (Or.inl h))))
+  have hab : ¬ closeEdge a b := fun h => hno (Or.inr (Or.inr (Or.inr (Or.inr (Or.inl h)))))
+  have hba : ¬ closeEdge b a := fun h => hno (Or.inr (Or.inr (Or.inr (Or.inr (Or.inr h)))))
   have hpre := racyPre_run hcl hda hdb
   have hrun : xrun 1 XState.init (racyExec a b) = some (racyState a b) := by
     unfold racyExec
@@ -180,16 +298,33 @@ theorem unordered_pair_races {a b : Access} (hno : ¬ ordered a b)
       · cases he
         have : b.role ≠ a.role := fun heq => hro ⟨by rw [← heq]; exact hr, heq.symm⟩
         simp [this]
-    · intro k t x _ c _ p t' hp
+    · intro k t x h c hc p t' hp
       rcases racyExec_get hp with ⟨_, hm⟩ | ⟨_, he⟩ | ⟨_, he⟩
-      · exact absurd rfl ((racyPre_plain hm).2 t' c)
+      · -- the only closes are of channels one of the rows wants observed: none of them is in a `relAfter`
+        have hcc := (racyPre_plain hm).2 t' c rfl
+        rcases racyExec_get h with ⟨_, hm'⟩ | ⟨_, he⟩ | ⟨_, he⟩
+        · exact absurd rfl ((racyPre_plain hm').1 t x)
+        · cases he
+          rcases hcc with hcc | hcc
+          · exact absurd hcc (hqa c hc)
+          · exact absurd ⟨c, hc, hcc⟩ hab
+        · cases he
+          rcases hcc with hcc | hcc
+          · exact absurd ⟨c, hc, hcc⟩ hba
+          · exact absurd hcc (hqb c hc)
       · cases he
       · cases he
     · intro k t x h c hc
-      rcases racyExec_get h with ⟨_, hm⟩ | ⟨_, he⟩ | ⟨_, he⟩
+      rcases racyExec_get h with ⟨_, hm⟩ | ⟨hk, he⟩ | ⟨hk, he⟩
       · exact absurd rfl ((racyPre_plain hm).1 t x)
-      · cases he; rw [hqa] at hc; cases hc
-      · cases he; rw [hqb] at hc; cases hc
+      · cases he
+        obtain ⟨p, hp⟩ := List.mem_iff_getElem?.mp (racyPre_obs.1 c hc)
+        have hlt : p < (racyPre a b).length := (List.getElem?_eq_some_iff.mp hp).1
+        exact ⟨p, by omega, by unfold racyExec; rw [List.getElem?_append_left hlt]; exact hp⟩
+      · cases he
+        obtain ⟨p, hp⟩ := List.mem_iff_getElem?.mp (racyPre_obs.2 c hc)
+        have hlt : p < (racyPre a b).length := (List.getElem?_eq_some_iff.mp hp).1
+        exact ⟨p, by omega, by unfold racyExec; rw [List.getElem?_append_left hlt]; exact hp⟩
   · intro hb
     obtain ⟨p, e, h1, h2, h3, h4⟩ := hb_needs_sync hb racyExec_at_a racyExec_at_b (by simp [XEv.thr])
     have : p = (racyPre a b).length := by omega
@@ -211,8 +346,16 @@ def NoRace (tbl : List Access) : Prop :=
     Conforms cr ρ tbl es → ∀ (i j t₁ t₂ : Nat) (a b : Access), es[i]? = some (XEv.acc t₁ a) →
     es[j]? = some (XEv.acc t₂ b) → t₁ ≠ t₂ → conflict a b → HB es i j ∨ HB es j i
 
-theorem raceFree_of_noRace {tbl : List Access}
-    (hwf : ∀ a ∈ tbl, a.acqBefore = [] ∧ (a.held.map Prod.fst).Nodup) (h : NoRace tbl) : raceFree tbl := by
+/-- the side condition on rows: each lock named once, no channel both closed after and observed before -/
+def WfRow (a : Access) : Prop := (∀ c ∈ a.relAfter, c ∉ a.acqBefore) ∧ (a.held.map Prod.fst).Nodup
+
+def wfRowB (a : Access) : Bool :=
+  a.relAfter.all (fun c => !a.acqBefore.contains c) && decide ((a.held.map Prod.fst).Nodup)
+
+theorem wfRowB_iff (a : Access) : wfRowB a = true ↔ WfRow a := by
+  simp [wfRowB, WfRow]
+
+theorem raceFree_of_noRace {tbl : List Access} (hwf : ∀ a ∈ tbl, WfRow a) (h : NoRace tbl) : raceFree tbl := by
   intro a ha b hb hcf
   refine Classical.byContradiction fun hno => ?_
   obtain ⟨ρ, sf, hrun, hconf, hia, hib, hn₁, hn₂⟩ :=
@@ -226,5 +369,26 @@ theorem raceFree_of_noRace {tbl : List Access}
   rcases h 1 ρ _ sf hrun hc _ _ 1 2 a b hia hib (by decide) hcf with h | h
   · exact hn₁ h
   · exact hn₂ h
+
+/-! ### example rows and executions (used by the non-vacuity examples of `PropsExec.lean`) -/
+
+/-- the writer/reader pair of one RWMutex on two goroutines, after publication -/
+def exW : Access := ⟨0, .W, 0, [(0, .excl)], .live, 0, [], []⟩
+def exR : Access := ⟨0, .R, 1, [(0, .shared)], .live, 0, [], []⟩
+def exLocked : List XEv :=
+  [.pub 1, .get 2, .acq 1 0 .excl, .acc 1 exW, .rel 1 0 .excl, .acq 2 0 .shared, .acc 2 exR]
+
+/-- constructor phase (before publication and after the join), channel-close edge and a role -/
+def exInit : Access := ⟨0, .W, 0, [], .init, 0, [], []⟩
+def exRel : Access := ⟨0, .W, 1, [], .live, 5, [7], []⟩
+def exAcq : Access := ⟨0, .R, 2, [], .live, 0, [], [7]⟩
+def exMixed : List XEv :=
+  [.acc 1 exInit, .pub 1, .get 2, .acc 1 exRel, .acc 1 exRel, .close 1 7, .obs 2 7, .acc 2 exAcq,
+   .leave 2, .join 1, .acc 1 exInit]
+
+/-- the pre-fix `genID` row: a write under `RLock`, and two goroutines doing it together -/
+def exShW : Access := ⟨0, .W, 0, [(0, .shared)], .live, 0, [], []⟩
+def exRacy : List XEv :=
+  [.pub 1, .get 2, .acq 1 0 .shared, .acq 2 0 .shared, .acc 1 exShW, .acc 2 exShW]
 
 end ScVerif.C11
